@@ -1,3 +1,134 @@
+import QmiModel.Model.Descriptor
+import QmiModel.Gen.TransportTables
 import Drv.Common
-/-! stub driver for C14: replaced when the model is built -/
-def main : IO Unit := Drv.main' (fun (s : Unit) _ => (s, "bad-op")) ()
+/-!
+Line-protocol driver for C14 (transport descriptors).  Strings travel as comma-separated
+code points (`-` = empty string).  Values: `s:<str>`, `i:<int>`, `f:<float literal as str>`,
+`b:0|1`, `n`.  A defaults item is `<key>;<value>`.
+
+ops
+* `ct <win 0|1> <descriptor> <default>*`        → `ok <cls> k=v …` | `exc:<PyType>`
+* `pps <iface> <descriptor> <default>*`         → `ok k=v …` (sorted by key) | `exc:<PyType>`
+* `parts <descriptor>`                          → `ok <part>*` | `exc:<PyType>`
+* `int <base> <str>`                            → `ok <int>` | `exc:ValueError`
+* `float <str>`                                 → `ok <float(x) in (1.0, 1.5, 2.0): 0|1>` | `exc:ValueError`
+* `host <str>`                                  → `ok` | `exc:<PyType>`          (`_validate_host`)
+* `hostname|ip4|ip6 <str>`                      → `true` | `false` | `exc:IndexError`
+* `fmtres <resource>*`                          → `ok <descriptor>*`             (`_format_resources`)
+-/
+open QmiModel.Descriptor
+
+namespace Drv.C14
+
+def decStr (t : String) : Option Str :=
+  if t == "-" then some []
+  else (t.splitOn ",").mapM (fun x =>
+    match x.toNat? with
+    | some n => if n < 0xd800 || (0xdfff < n && n < 0x110000) then some (Char.ofNat n) else none
+    | none => none)
+
+def encStr (s : Str) : String :=
+  if s.isEmpty then "-" else ",".intercalate (s.map (fun c => toString c.toNat))
+
+def decVal (t : String) : Option PyVal :=
+  if t == "n" then some .none
+  else match t.splitOn ":" with
+    | ["s", x] => (decStr x).map .str
+    | ["f", x] => (decStr x).map .flt
+    | ["i", x] => x.toInt?.map .int
+    | ["b", "0"] => some (.bool false)
+    | ["b", "1"] => some (.bool true)
+    | _ => none
+
+/-- decimal below 2^63, hexadecimal above (Python's `str(int)` refuses more than 4300 digits) -/
+def encInt (i : Int) : String :=
+  if i.natAbs < 2 ^ 63 then toString i
+  else (if i < 0 then "-0x" else "0x") ++ String.ofList (toHex i.natAbs)
+
+def encVal : PyVal → String
+  | .str s => "s:" ++ encStr s
+  | .flt s => "f:" ++ encStr s
+  | .int i => "i:" ++ encInt i
+  | .bool b => if b then "b:1" else "b:0"
+  | .none => "n"
+
+def decDefault (t : String) : Option (Str × PyVal) :=
+  match t.splitOn ";" with
+  | [k, v] => match decStr k, decVal v with
+    | some k, some v => some (k, v)
+    | _, _ => none
+  | _ => none
+
+def excName : PyExc → String
+  | .descriptor => "exc:QMI_TransportDescriptorException"
+  | .valueError => "exc:ValueError"
+  | .typeError => "exc:TypeError"
+  | .indexError => "exc:IndexError"
+
+def encItems (l : List (Str × PyVal)) : String :=
+  " ".intercalate (l.map (fun kv => String.ofList kv.1 ++ "=" ++ encVal kv.2))
+
+def insertKey (x : Str × PyVal) : List (Str × PyVal) → List (Str × PyVal)
+  | [] => [x]
+  | y :: ys => if strLt x.1 y.1 then x :: y :: ys else y :: insertKey x ys
+
+def sortItems (l : List (Str × PyVal)) : List (Str × PyVal) := l.foldl (fun acc x => insertKey x acc) []
+
+def env : Env := QmiModel.Gen.TransportTables.env
+
+def joinOk (xs : List String) : String := if xs.isEmpty then "ok" else "ok " ++ " ".intercalate xs
+
+def handle (line : String) : String :=
+  match line.splitOn " " with
+  | "ct" :: w :: d :: defs =>
+    (match decStr d, defs.mapM decDefault with
+     | some s, some ds =>
+       if w != "0" && w != "1" then "bad-op" else
+       (match createTransport env (w == "1") s ds with
+        | .ok t => joinOk [String.ofList t.cls, encItems t.attrs]
+        | .err e => excName e)
+     | _, _ => "bad-op")
+  | "pps" :: name :: d :: defs =>
+    (match env.ifaces.find? (fun I => String.ofList I.name == name), decStr d, defs.mapM decDefault with
+     | some I, some s, some ds =>
+       (match parseParameterStrings I s ds with
+        | .ok p => joinOk [encItems (sortItems p)]
+        | .err e => excName e)
+     | _, _, _ => "bad-op")
+  | ["parts", d] =>
+    (match decStr d with
+     | some s => (match parseParts s with
+        | .ok ps => joinOk (ps.map encStr)
+        | .err e => excName e)
+     | none => "bad-op")
+  | ["int", b, x] =>
+    (match b.toNat?, decStr x with
+     | some b, some s => (match pyInt b s with
+        | some i => "ok " ++ encInt i
+        | none => "exc:ValueError")
+     | _, _ => "bad-op")
+  | ["float", x] =>
+    (match decStr x with
+     | some s => (match floatParse s with
+        | some f => if floatIsStopbits f then "ok 1" else "ok 0"
+        | none => "exc:ValueError")
+     | none => "bad-op")
+  | ["host", x] =>
+    (match decStr x with
+     | some s => (match validateHost s with | .ok _ => "ok" | .err e => excName e)
+     | none => "bad-op")
+  | ["hostname", x] =>
+    (match decStr x with
+     | some s => if s.isEmpty then "exc:IndexError" else toString (isValidHostname s)
+     | none => "bad-op")
+  | ["ip4", x] => (match decStr x with | some s => toString (isIp4 s) | none => "bad-op")
+  | ["ip6", x] => (match decStr x with | some s => toString (isIp6 s) | none => "bad-op")
+  | "fmtres" :: rs =>
+    (match rs.mapM decStr with
+     | some l => joinOk ((formatResources l).map encStr)
+     | none => "bad-op")
+  | _ => "bad-op"
+
+end Drv.C14
+
+def main : IO Unit := Drv.main' (fun (s : Unit) l => (s, Drv.C14.handle l)) ()
